@@ -173,7 +173,11 @@ std::string propNum(const FmmCase& c0, const std::string& prop){
     if(c.charges.size() != c.pos.size() || c.tcharges.size() != c.tpos.size()) return "SKIP no charges";
     for(int d = 1 ; d < 3 ; ++d) if(c.width[size_t(d)] != c.width[0]) return "SKIP box not cubic";
     rm::ModelTree ms, mtg; ms.build<Real>(c, c.pos); mtg.build<Real>(c, c.tpos);
-    if(!ms.allInBox || !ms.allSound || !mtg.allInBox || !mtg.allSound) return "SKIP generator soundness";
+    // (uniform kernel: particles a few ulps from a cell face of a generic box are kept although the model cannot decide their leaf -
+    // every oracle below except the scaling relation, which re-checks soundness itself, depends on positions only)
+    if(!ms.allInBox || !mtg.allInBox) return "SKIP generator soundness";
+    if(KERNEL != 2 && (!ms.allSound || !mtg.allSound)) return "SKIP generator soundness";
+    if(!ms.allSound || !mtg.allSound) st.cls("particle-within-ulps-of-a-cell-face");
     const int H = c.height;
     if(Periodic && H < 2) return "SKIP periodic height";
     const int extra = Periodic ? std::min(std::max(c.extraLevels, -1), 2) : -2;
@@ -359,7 +363,7 @@ std::string propNum(const FmmCase& c0, const std::string& prop){
             const Config config2(H, w2, c2);
             rm::ModelTree m2; m2.build<Real>(cs, cs.tpos);
             // the corner of the scaled box must be the scaled corner (else leaves may differ): require the same leaf for every particle
-            bool sameLeaves = (m2.leafOf == mtg.leafOf) && m2.allInBox && m2.allSound;
+            bool sameLeaves = ms.allSound && mtg.allSound && (m2.leafOf == mtg.leafOf) && m2.allInBox && m2.allSound;
             if(sameLeaves){ rm::ModelTree m3; m3.build<Real>(cs, cs.pos); sameLeaves = (m3.leafOf == ms.leafOf) && m3.allInBox && m3.allSound; }
             if(sameLeaves){
                 Result r2; e = Num<ORDERV>::runFmm(cs, config2, qs, qt, bs, c.oneGroupPerParent != 0, extra, r2); if(!e.empty()) return e;
@@ -395,6 +399,7 @@ int main(int argc, char** argv){
     // heights: rotation kernel 1..7 (C04's quantifier), uniform kernel 1..6 (C05's), periodic 2..4 (cost of the image sum), float <= 5
     g.minH = Periodic ? 2 : 1; g.maxH = int(a.getInt("maxh", Periodic ? 4 : (KERNEL == 1 ? 7 : 6))); g.maxN = int(a.getInt("maxn", Periodic ? 60 : 300));
     if(RealCode == 1) g.maxH = std::min(g.maxH, 5);
+    if(KERNEL == 2 && RealCode == 0) g.ulpFacesGeneric = true;   // (float: a 3 ulp offset already exceeds the 10 eps tolerance of the kernel assertion - F-UNIF-ROOTS-ASSERT)
     if(RealCode == 1 && KERNEL == 1) g.widthDecades = 1;     // float rotation kernel: box width^(P+1) must stay in the float range (known finding F-ROT-FLOAT-RANGE)
 #if RT == 1
     g.schedules = true; g.executors = 2;
